@@ -272,6 +272,15 @@ var unknownWords = []string{"foo", "bar", "xyz", "zzz", "aaa", "preview", "night
 
 // One draws one intended-valid version string of the ecosystem.
 func One(eco string, r *rand.Rand) string {
+	if r.IntN(40) == 0 { // an ordinary x.y.z whose text has an extreme 32-bit hash or collides with another one (collide.go)
+		if r.IntN(2) == 0 {
+			if f := ExtremeFamily(r, 1); len(f) > 0 {
+				return f[0]
+			}
+		} else if f := CollisionFamily(eco, r, 1); len(f) > 0 {
+			return f[r.IntN(len(f))]
+		}
+	}
 	lzb := NumOpts{LeadZero: true, Big: true}
 	lz := NumOpts{LeadZero: true}
 	switch eco {
@@ -1003,6 +1012,20 @@ func Cluster(eco string, r *rand.Rand) []string {
 					}
 				}
 			}
+		}
+	}
+	// prefix family: a long hash-like word attached to the base with one of the usual tail separators, next to a shorter
+	// prefix of it and two different longer extensions (abbreviated vs full commit hashes, truncated build tags):
+	// "is a prefix of" is not an equivalence, and prefix-based shortcuts break transitivity only with three relatives
+	if chance(r, 1, 6) {
+		w := []string{"1a2b3c4", "abcdef0", "deadbee", "0123456", "gabcdef", "fffffff"}[r.IntN(6)]
+		for _, sep := range []string{"~", "+", "-", ".", "_", "+git", "_git", "-g", "~git"} {
+			if !chance(r, 1, 2) {
+				continue
+			}
+			tails := []string{"", "-r0", "-1"}
+			tl := tails[r.IntN(len(tails))]
+			out = append(out, base+sep+w+tl, base+sep+w+"d5e6f"+tl, base+sep+w+"ffe01"+tl, base+sep+w[:6]+tl, base+sep+w+"d"+tl, base+sep+w[:5]+tl)
 		}
 	}
 	// maven: the unique snapshots of this base as a repository lists them, next to the literal -SNAPSHOT
